@@ -224,6 +224,8 @@ def y_scripts(seed, count):
         cap = rnd.choice([1, 2, 3, 4, 5, 7, 8, 11, 16])
         init = rnd.randrange(0, min(cap, 4) + 1)
         ty = rnd.choice(["int", "str", "trk", "vec"])
+        if ty == "int" and n % 2 == 0:
+            ty = "weq"       # trivially copyable, but equal elements need not be equal bytes (comparison is part of C04)
         xid = "y%d" % n
         hdr = "X %s type=%s ow=%d cap=%d init=%d list=%d" % (xid, ty, ow, cap, init, rnd.randrange(2))
         lines.append(hdr)
